@@ -321,3 +321,32 @@ def c13(tier):
             us.append(U(f"strict:{integ}:p{phys}", "opts", "strict", dict(integ=integ, phys=phys), timeout=300))
     return us + [twin(us[0]), twin([u for u in us if u["fn"] == "matrix"][0]), twin([u for u in us if u["fn"] == "names_min"][0]),
                  twin([u for u in us if u["fn"] == "lookup_max"][0]), twin([u for u in us if u["fn"] == "parse_reject"][0]), twin([u for u in us if u["fn"] == "strict"][0])]
+
+
+REJ_FUNCS = ["pyjelly/parse/decode.py:*", "pyjelly/parse/lookup.py:*", "pyjelly/parse/ioutils.py:*", "pyjelly/integrations/generic/parse.py:*", "pyjelly/integrations/rdflib/parse.py:*"]
+
+
+def inject_units(tier, integs=("generic", "rdflib")):
+    from vpkg.harness.reject import CLASSES
+    us = []
+    for integ in integs:
+        for phys in (1, 2, 3):
+            for (pf, dt) in ((4, 4), (0, 0)):
+                for entry in (("flat",) if tier == "quick" and integ == "rdflib" else ("flat", "grouped", "to_graph")):
+                    if tier == "quick" and entry != "flat" and (pf, dt) == (0, 0):
+                        continue
+                    us.append(U(f"inject:{integ}:p{phys}:t{pf}-{dt}:{entry}", "reject", "inject_h",
+                                dict(integ=integ, phys=phys, prefixes=pf, datatypes=dt, entry=entry, cls=None), timeout=300))
+    return us
+
+
+@prop("C16", functions=REJ_FUNCS,
+      bounds={"quick": {"streams": "3-statement valid base streams (TRIPLES/QUADS/GRAPHS, tables (8,4,4) and (8,0,0)) from the reference encoder",
+                        "violations": "12 catalogued classes x injection position 0..2 x hostile value {size+1, 2^32-1} x framing {one frame, one row per frame}; class/position/value/framing symbolic",
+                        "entries": "flat/grouped/to_graph of the generic integration, flat of rdflib"},
+              "thorough": {"entries": "all three entry points of both integrations"}},
+      outside="violations outside the catalogue; reader states not reached by the 3-statement base streams (covered for lookup bounds by the symbolic-size lemma of C13/C17)",
+      explanation="H-INJECT: the reference decoder must call the mutated stream invalid (else discarded); pyjelly must raise at or before the offending row; what it yielded before must be a prefix of the valid part")
+def c16(tier):
+    us = inject_units(tier)
+    return us + [twin(us[0])]
